@@ -16,8 +16,6 @@ def validate_encoded(string):
       "and orientations")
 
 def validate_decoded(iterable):
-  if len(iterable) == 0:
-    raise gfapy.FormatError("the list of GFA2 identifiers is empty")
   for elem in iterable:
     if not isinstance(elem, gfapy.OrientedLine):
       raise gfapy.TypeError(
